@@ -97,6 +97,7 @@ def check_case(ctx, case):
             ctx.violation("expected_rates_not_mean_of_gridded_counts", None)
             return
         results = []
+        all_results = []
         # ---------------- number test
         o = call(CE.number_test, forecast(), observed(), verbose=False)
         if not o.ok:
@@ -104,6 +105,7 @@ def check_case(ctx, case):
         else:
             r = o.value
             results.append(r)
+            all_results.append(r)
             if list(r.test_distribution) != sizes or r.observed_statistic != n_obs:
                 ctx.violation("N:distribution_or_statistic_wrong", {"td": list(r.test_distribution), "want": sizes})
             elif tuple(float(x) for x in r.quantile) != quantiles(sizes, n_obs):
@@ -129,6 +131,8 @@ def check_case(ctx, case):
                 ctx.unexpected(o, name + "_test")
                 continue
             r = o.value
+            if r is not None:
+                all_results.append(r)
             if n_obs == 0 or (under and kept.sum() == 0):
                 # explicit signalling: no numeric quantile
                 if name == "PL":
@@ -174,6 +178,8 @@ def check_case(ctx, case):
                 ctx.unexpected(o, name + "_test")
                 continue
             r = o.value
+            if r is not None:
+                all_results.append(r)
             if n_obs == 0:
                 if r is None or r.status != "not-valid" or r.observed_statistic is not None or tuple(r.quantile) != (None, None):
                     ctx.violation(name + ":empty_observation_not_flagged_not_valid", {"status": getattr(r, "status", None)})
@@ -201,13 +207,30 @@ def check_case(ctx, case):
             if td and tuple(float(x) for x in r.quantile) != quantiles(td, got_obs):
                 ctx.violation(name + ":quantile_wrong", {"got": list(r.quantile), "want": quantiles(td, got_obs)})
         # ---------------- calibration test consumes delta_2 of the valid results
-        valid = [r for r in results if r.status != "not-valid" and isinstance(r.quantile, (tuple, list))]
+        valid = [r for r in all_results if r.status != "not-valid"]
         if len(valid) >= 2:
-            o = call(CE.calibration_test, valid)
+            # not-valid results are passed too: the calibration test must leave them out
+            o = call(CE.calibration_test, all_results)
             if not o.ok:
                 ctx.unexpected(o, "calibration_test")
             elif [float(x) for x in o.value.test_distribution] != [float(r.quantile[1]) for r in valid]:
-                ctx.violation("calibration:wrong_quantiles_collected", None)
+                ctx.violation("calibration:wrong_quantiles_collected", {"got": [float(x) for x in o.value.test_distribution][:8],
+                                                                       "want": [float(r.quantile[1]) for r in valid][:8],
+                                                                       "n_not_valid": len(all_results) - len(valid)})
+        # ---------------- MLL with full_calculation=True (resamples from the union of magnitudes): defined for any N_obs
+        if n_obs > 0 and S.nm >= 2:
+            o1 = call(CE.MLL_magnitude_test, forecast(), observed(), full_calculation=True, seed=case["seed"])
+            o2 = call(CE.MLL_magnitude_test, forecast(), observed(), full_calculation=True, seed=case["seed"])
+            if not o1.ok or not o2.ok:
+                ctx.unexpected(o1 if not o1.ok else o2, "MLL_full_calculation" + (":more_observed_than_forecast_events" if n_obs > nu else ""))
+            else:
+                t1 = [float(x) for x in o1.value.test_distribution]
+                if len(t1) != J or any(math.isnan(x) or math.isinf(x) for x in t1):
+                    ctx.violation("MLL_full:distribution_size_or_finiteness", {"n": len(t1), "J": J})
+                if t1 != [float(x) for x in o2.value.test_distribution]:
+                    ctx.violation("MLL_full:not_deterministic_for_seed", {"seed": case["seed"]})
+                if not rel(float(o1.value.observed_statistic), mll(union.tolist(), mobs.tolist())):
+                    ctx.violation("MLL_full:observed_statistic_wrong", {"got": float(o1.value.observed_statistic)})
 
 
 def nontrivial(case):
